@@ -83,8 +83,12 @@ func decodeFormat4(in []byte, code2rune func(c int) rune) (Subtable, error) {
 				}
 				return nil, errMalformedSubtable
 			}
+			delta := glyph.ID(idDelta[k])
 			for idx := start; idx < end; idx++ {
 				c := glyph.ID(glyphIDArray[d+int(idx-start)])
+				if c != 0 {
+					c += delta
+				}
 				if c != 0 {
 					cmap[uint16(code2rune(int(idx)))] = c
 				}
